@@ -236,13 +236,19 @@ def exec_grammar(engine_extras: bool = False, opt_extras: bool = False, limit_ex
                        A("sa.min_where", 1, "SELECT MIN(c) FROM y WHERE c > 1"), A("sa.count_group", 1, "SELECT COUNT(*) FROM y WHERE y.b = x.b GROUP BY y.b")],
             "dtuse": [A("u.unused_cross!", 0, "SELECT x.a FROM x CROSS JOIN ({dtbody}) AS q"), A("u.count!", 0, "SELECT COUNT(*) AS n FROM ({dtbody}) AS q"),
                       A("u.used_cross!", 0, "SELECT x.a, q.s FROM x CROSS JOIN ({dtbody}) AS q"), A("u.left_used!", 0, "SELECT x.a, q.s FROM x LEFT JOIN ({dtbody}) AS q ON x.b = q.k"),
-                      A("u.left_unused!", 0, "SELECT x.a FROM x LEFT JOIN ({dtbody}) AS q ON x.b = q.k"), A("u.const_only!", 0, "SELECT 1 AS one FROM ({dtbody}) AS q")],
+                      A("u.left_unused!", 0, "SELECT x.a FROM x LEFT JOIN ({dtbody}) AS q ON x.b = q.k"), A("u.const_only!", 0, "SELECT 1 AS one FROM ({dtbody}) AS q"),
+                      # joined on the body's (possibly aggregate) output s: the join multiplies x's rows when several body rows share s
+                      A("u.left_on_s_unused!", 0, "SELECT x.a FROM x LEFT JOIN ({dtbody}) AS q ON x.b = q.s"), A("u.left_on_s_used!", 0, "SELECT x.a, q.s FROM x LEFT JOIN ({dtbody}) AS q ON x.b = q.s"),
+                      A("u.inner_on_s!", 0, "SELECT x.a FROM x JOIN ({dtbody}) AS q ON x.b = q.s")],
             "dtbody": [A("b.plain!", 0, "SELECT b AS k, c AS s FROM y"), A("b.agg_bare!", 0, "SELECT SUM(c) AS s FROM y"), A("b.agg_expr!", 0, "SELECT SUM(c) * 2 AS s FROM y"),
                        A("b.agg_coalesce!", 0, "SELECT COALESCE(SUM(c), 0) AS s FROM y"), A("b.agg_count_plus!", 0, "SELECT COUNT(*) + 1 AS s FROM y"),
                        A("b.window!", 0, "SELECT SUM(c) OVER () AS s FROM y"), A("b.const!", 0, "SELECT b AS k, 1 AS s FROM y"),
                        A("b.coalesce!", 0, "SELECT b AS k, COALESCE(c, 0) AS s FROM y"), A("b.distinct!", 0, "SELECT DISTINCT c AS s FROM y"),
                        A("b.group!", 0, "SELECT c AS s FROM y GROUP BY c"), A("b.limit!", 0, "SELECT c AS s FROM y ORDER BY 1 LIMIT 1"),
-                       A("b.union_nested!", 0, "(SELECT b AS k, c AS s FROM y UNION SELECT a, b FROM x) UNION ALL SELECT a, b FROM x")],
+                       A("b.union_nested!", 0, "(SELECT b AS k, c AS s FROM y UNION SELECT a, b FROM x) UNION ALL SELECT a, b FROM x"),
+                       # grouped bodies: key not projected / only aggregates projected (one row per GROUP, not one row) / key projected
+                       A("b.group_agg_nokey!", 0, "SELECT SUM(c) AS s FROM y GROUP BY b"), A("b.group_all_aggs!", 0, "SELECT COUNT(*) AS k, MAX(c) AS s FROM y GROUP BY b"),
+                       A("b.group_key_agg!", 0, "SELECT b AS k, SUM(c) AS s FROM y GROUP BY b"), A("b.group_agg_other_key!", 0, "SELECT MAX(b) AS k, SUM(c) AS s FROM y GROUP BY c")],
             "c3cte": [A("c3.nocte", 0, "")],
             "c3first": [A("c3.table!", 0, "x AS s"), A("c3.derived_where!", 0, "(SELECT a, b FROM x WHERE a = 1) AS s"),
                         A("c3.derived_notnull!", 0, "(SELECT a, b FROM x WHERE b IS NOT NULL) AS s"), A("c3.derived_plain!", 0, "(SELECT a, b FROM x) AS s")],
